@@ -11,14 +11,15 @@ import (
 // ---- C11: every line a process writes reaches its log, once, in order ----
 
 type expLine struct {
-	text   string
-	stream int
-	launch int
+	text    string
+	stream  int
+	launch  int
+	partial bool // what had been read of a line when the pipe failed (fault F6)
 }
 
 // expectedLines reconstructs, from the simulated kernel's write events, the lines each
 // replica wrote per launch and stream (a final piece without newline is a line too).
-func expectedLines(t *Truth) map[string][]expLine {
+func expectedLines(sc *Scenario, t *Truth) map[string][]expLine {
 	out := map[string][]expLine{}
 	for rep, insts := range t.ByRep {
 		for li, in := range insts {
@@ -26,16 +27,24 @@ func expectedLines(t *Truth) map[string][]expLine {
 			for _, w := range in.Writes {
 				acc[w.Stream] += w.Text
 			}
+			// fault F6: the supervisor's read of stdout fails once so many bytes were read;
+			// what was read until then is owed, the unfinished line included
+			cut := false
+			if scr := scriptOfInst(sc, t, in); scr != nil && scr.ReadErrAt > 0 && len(acc[1]) > scr.ReadErrAt {
+				acc[1] = acc[1][:scr.ReadErrAt]
+				cut = true
+			}
 			for _, st := range []int{1, 2} {
 				if acc[st] == "" {
 					continue
 				}
 				parts := strings.Split(acc[st], "\n")
-				if parts[len(parts)-1] == "" {
+				unfinished := parts[len(parts)-1] != ""
+				if !unfinished {
 					parts = parts[:len(parts)-1]
 				}
-				for _, p := range parts {
-					out[rep] = append(out[rep], expLine{p, st, li})
+				for i, p := range parts {
+					out[rep] = append(out[rep], expLine{p, st, li, cut && st == 1 && unfinished && i == len(parts)-1})
 				}
 			}
 		}
@@ -64,6 +73,9 @@ func checkLines(where, rep string, got []string, exp []expLine, complete bool) *
 				return &Violation{"C11", kind + "-" + where, d, fmt.Sprintf("%s: line %q (launch %d, stream %d) was written before the process exited but is not in the %s", rep, clipStr(e.text, 80), e.launch, e.stream, where), 0}
 			}
 			continue
+		}
+		if e.partial {
+			continue // present: that is all that can be said of a piece of a line
 		}
 		if len(ps) > 1 {
 			return &Violation{"C11", "line-duplicated-" + where, "", fmt.Sprintf("%s: line %q occurs %d times in the %s", rep, clipStr(e.text, 80), len(ps), where), 0}
@@ -95,7 +107,7 @@ func clipStr(s string, n int) string {
 
 func checkC11(sc *Scenario, res *RunResult, t *Truth) []Violation {
 	var vs []Violation
-	exp := expectedLines(t)
+	exp := expectedLines(sc, t)
 	total := 0
 	for _, e := range exp {
 		total += len(e)
@@ -108,17 +120,6 @@ func checkC11(sc *Scenario, res *RunResult, t *Truth) []Violation {
 		p := sc.specOfReplica(rep)
 		if p == nil || p.IsDaemon {
 			continue
-		}
-		readErr := false
-		if ts := sc.Scripts[p.Token]; ts != nil {
-			for _, l := range ts.Launches {
-				if l.ReadErrAt > 0 {
-					readErr = true
-				}
-			}
-		}
-		if readErr {
-			continue // after an injected read error only what was read before it is owed
 		}
 		// the command must have ended (and been reaped) for the obligation to hold
 		ended := true
@@ -147,14 +148,18 @@ func checkC11(sc *Scenario, res *RunResult, t *Truth) []Violation {
 			}
 			for stream := 1; stream <= 2; stream++ {
 				seen := false
+				first := ""
 				for _, e := range exp[rep] {
-					if e.stream != stream {
-						continue
+					if e.stream != stream || e.partial {
+						continue // (a piece of a line says nothing about which lines are kept)
 					}
 					if in[e.text] {
+						if !seen {
+							first = e.text
+						}
 						seen = true
 					} else if seen {
-						vs = append(vs, Violation{"C11", "memory-log-gap", "", fmt.Sprintf("%s: line %q (stream %d) is missing from the log although earlier lines of the stream are still there (log_length %d, %d lines written, %d kept)", rep, clipStr(e.text, 80), stream, logLen, len(exp[rep]), len(got)), 0})
+						vs = append(vs, Violation{"C11", "memory-log-gap", "", fmt.Sprintf("%s: line %q (stream %d) is missing from the log although the earlier line %q of the stream is still there (log_length %d, %d lines written, %d kept)", rep, clipStr(e.text, 80), stream, clipStr(first, 40), logLen, len(exp[rep]), len(got)), 0})
 						break
 					}
 				}
@@ -220,17 +225,6 @@ func checkC11(sc *Scenario, res *RunResult, t *Truth) []Violation {
 				continue
 			}
 			if p.LogLocation == "" && sc.Project.LogLocation == "" {
-				continue
-			}
-			skip := false
-			if ts := sc.Scripts[p.Token]; ts != nil {
-				for _, l := range ts.Launches {
-					if l.ReadErrAt > 0 {
-						skip = true
-					}
-				}
-			}
-			if skip {
 				continue
 			}
 			got := fileLines[rep]
